@@ -182,6 +182,9 @@ impl Property for C12 {
     fn domain_off(&self) -> Vec<&'static str> {
         vec!["crlf", "item_first_list", "item_first_heading", "empty_item", "html_block"]
     }
+    fn max_shrink_iters(&self) -> u32 {
+        600
+    }
     fn cases(&self, tier: Tier) -> u64 {
         match tier {
             Tier::Quick => 2000,
